@@ -9,7 +9,7 @@ def main(tier):
     v = Verdict("C01", tier)
     ev = dict(tlc=[])
     cfgs = ["Writer.c01.quick.cfg"] if tier == "quick" else ["Writer.c01.thorough.cfg"]
-    extra = ["Writer.c01.names.cfg", "Writer.c01.endalign.cfg"]
+    extra = ["Writer.c01.names.cfg", "Writer.c01.endalign.cfg", "Writer.c01.stream.cfg"]
     for cfg in cfgs + extra:
         res, edges, runs = export_writer(cfg, "c01-" + cfg)
         ev["tlc"].append(dict(cfg=cfg, generated=res.generated, distinct=res.distinct, depth=res.depth, violation=res.violation))
